@@ -228,6 +228,15 @@ theorem schedOk_iff (T : Tables) (hT : 1 ≤ T.minLen) (L : Lists) (its : List I
 theorem not_schedOk_nonIterable (T : Tables) (L : Lists) : ¬ SchedOk T L .nonIterable := by
   rintro ⟨ps, h, _⟩; cases h
 
+theorem not_schedOk_nonSequence (T : Tables) (L : Lists) (k : NonSeq) (its : List Item) :
+    ¬ SchedOk T L (.nonSequence k its) := by
+  rintro ⟨ps, h, _⟩; cases h
+
+/-- sequences and non-iterables: the schedules for which every rejection is a schedule error -/
+def Schedule.isSeq : Schedule → Bool
+  | .nonSequence _ _ => false
+  | _ => true
+
 theorem validateSchedulesAux_ok_iff (T : Tables) (hT : 1 ≤ T.minLen) (L : Lists) (ss : List Schedule)
     (i : Nat) :
     validateSchedulesAux T L ss i = .ok () ↔ ∀ s ∈ ss, SchedOk T L s := by
@@ -240,6 +249,15 @@ theorem validateSchedulesAux_ok_iff (T : Tables) (hT : 1 ≤ T.minLen) (L : List
       constructor
       · intro h; cases h
       · rintro ⟨h, _⟩; exact absurd h (not_schedOk_nonIterable T L)
+    | nonSequence k its =>
+      simp only [validateSchedulesAux, List.mem_cons, forall_eq_or_imp]
+      constructor
+      · intro h
+        split at h
+        · cases h
+        · cases h
+        · cases k <;> simp only [] at h <;> (try split at h) <;> cases h
+      · rintro ⟨h, _⟩; exact absurd h (not_schedOk_nonSequence T L k its)
     | items its =>
       simp only [validateSchedulesAux, List.mem_cons, forall_eq_or_imp, schedOk_iff T hT L its]
       constructor
@@ -296,7 +314,7 @@ theorem validateItems_ne_keyError (T : Tables) (hK : KindsAreKeys T) (L : Lists)
 that cannot be iterated gives the item error without an item position, otherwise it is an item error (position of
 its first failing item, that item's exception) if an item fails, otherwise an order error. -/
 theorem validateSchedulesAux_error (T : Tables) (hT : 1 ≤ T.minLen) (hK : KindsAreKeys T) (L : Lists)
-    (ss : List Schedule) (i : Nat) (e : Err)
+    (ss : List Schedule) (i : Nat) (e : Err) (hseq : ∀ s ∈ ss, s.isSeq = true)
     (h : validateSchedulesAux T L ss i = .error e) :
     ∃ pre s post, ss = pre ++ s :: post ∧ (∀ x ∈ pre, SchedOk T L x) ∧ ¬ SchedOk T L s ∧
       ((s = .nonIterable ∧ e = .itemNoPos (i + pre.length)) ∨
@@ -311,6 +329,9 @@ theorem validateSchedulesAux_error (T : Tables) (hT : 1 ≤ T.minLen) (hK : Kind
       simp only [validateSchedulesAux] at h
       injection h with h; subst h
       exact ⟨[], .nonIterable, rest, rfl, by simp, not_schedOk_nonIterable T L, Or.inl ⟨rfl, by simp⟩⟩
+    | nonSequence k its =>
+      have := hseq (.nonSequence k its) (by simp)
+      simp [Schedule.isSeq] at this
     | items its =>
       simp only [validateSchedulesAux] at h
       split at h
@@ -350,7 +371,7 @@ theorem validateSchedulesAux_error (T : Tables) (hT : 1 ≤ T.minLen) (hK : Kind
           rw [schedOk_iff T hT]; rintro ⟨names', h1, h2⟩
           rw [hn] at h1; injection h1 with h1; subst h1; rw [ho] at h2; cases h2
         · rename_i ho
-          obtain ⟨pre, s', post, h1, h2, h3, h4⟩ := ih (i + 1) h
+          obtain ⟨pre, s', post, h1, h2, h3, h4⟩ := ih (i + 1) (fun x hx => hseq x (by simp [hx])) h
           refine ⟨.items its :: pre, s', post, by simp [h1], ?_, h3, ?_⟩
           · intro x hx
             rcases List.mem_cons.1 hx with rfl | hx
@@ -1024,6 +1045,45 @@ theorem lookupTargets_total (L : Lists) (ps : List (String × Int)) (pos : Nat) 
       rcases ih' with ⟨ts, h1, h2⟩ | ⟨k, h1, h2, h3⟩
       · exact Or.inl ⟨qtOf p.1 m :: ts, by simp only [h1], by simp [h2]⟩
       · exact Or.inr ⟨k, by simp only [h1], by omega, by simp only [List.length_cons]; omega⟩
+
+
+
+/-! ## reject side of the tomography constructors -/
+
+
+/-- per schedule: on an Experiment-accepted schedule the class test never raises IndexError -/
+theorem tomoValidateOne_no_index (c : Cls) (i : Nat) (ps : List (String × Int))
+    (ho : OrderRule (ps.map (·.1))) :
+    tomoValidateOne c.spec i ps = .ok () ∨ tomoValidateOne c.spec i ps = .error (.value i) := by
+  match ps, ho with
+  | [], ho => simp [OrderRule] at ho
+  | [a], ho => simp [OrderRule] at ho
+  | [a, b], ho =>
+    obtain ⟨_, _, _, _, hl⟩ := ho
+    have hb : b.1 = "povm" ∨ b.1 = "mprocess" := by simpa using hl
+    cases c <;>
+      simp only [Cls.spec, qstSpec, povmtSpec, qptSpec, qmptSpec, QGen.C20.qstPos, QGen.C20.qstZero, QGen.C20.qstLen,
+        QGen.C20.povmtPos, QGen.C20.povmtZero, QGen.C20.povmtLen, QGen.C20.qptPos, QGen.C20.qptZero, QGen.C20.qptLen,
+        QGen.C20.qmptPos, QGen.C20.qmptZero, QGen.C20.qmptLen, tomoValidateOne, firstTest, posTests] <;>
+      rcases hb with hb | hb <;> simp [hb] <;> (repeat' split) <;> simp_all
+  | a :: b :: d :: rest, _ =>
+    cases c <;>
+      simp only [Cls.spec, qstSpec, povmtSpec, qptSpec, qmptSpec, QGen.C20.qstPos, QGen.C20.qstZero, QGen.C20.qstLen,
+        QGen.C20.povmtPos, QGen.C20.povmtZero, QGen.C20.povmtLen, QGen.C20.qptPos, QGen.C20.qptZero, QGen.C20.qptLen,
+        QGen.C20.qmptPos, QGen.C20.qmptZero, QGen.C20.qmptLen, tomoValidateOne, firstTest, posTests] <;>
+      by_cases h1 : a.1 = "state" <;> by_cases h2 : b.1 = "povm" <;> by_cases h3 : b.1 = "gate" <;>
+      by_cases h4 : b.1 = "mprocess" <;> by_cases h5 : d.1 = "povm" <;> by_cases h6 : rest = [] <;>
+      by_cases h7 : a.2 = 0 <;> by_cases h8 : b.2 = 0 <;> simp_all
+
+theorem tomoValidate_no_index (c : Cls) (pss : List (List (String × Int))) (i : Nat) (e : TomoErr)
+    (hw : ∀ ps ∈ pss, OrderRule (ps.map (·.1))) (h : tomoValidate c.spec pss i = .error e) : ∃ j, e = .value j := by
+  induction pss generalizing i with
+  | nil => simp [tomoValidate] at h
+  | cons ps t ih =>
+    simp only [tomoValidate] at h
+    rcases tomoValidateOne_no_index c i ps (hw ps (by simp)) with g | g
+    · rw [g] at h; exact ih (i + 1) (fun q hq => hw q (by simp [hq])) h
+    · rw [g] at h; injection h with h; exact ⟨i, h.symm⟩
 
 
 end QM.C20
